@@ -116,9 +116,11 @@ class C04(Check):
                 nd = bl.gen_payload(rng, max(0, rng.choice([0, cl - 1, cl, cl + 3, rng.randint(0, 40)])))
                 r1 = bl.rop(nd, bl.gen_sched(rng, max(1, len(nd)))[:30])
                 r2 = bl.rop(bl.gen_payload(rng, rng.randint(0, 12)), [1] * rng.randint(0, 3))
+                lo = bl.lop(cl_spelling(rng, max(0, cl + rng.choice([-2, -1, 0, 1, 3]))) or '')
                 ops = rng.choice([['B', r1, 'B'], ['?S', r1, 'B', 'I'], ['?B', r1, 'B'], ['B', 'K', r1, 'B', 'O', 'B'],
                                   ['P2', r1, 'P3', 'B'], [r1, 'B'], ['B', r1, r2, 'B', 'I'], ['K', r1, '?B', 'O', 'B'],
-                                  ['?B', 'K', r1, 'B', 'O', '?B'], ['B', r1, 'P1', r2, '?S']])
+                                  ['?B', 'K', r1, 'B', 'O', '?B'], ['B', r1, 'P1', r2, '?S'],
+                                  ['B', lo, r1, 'B'], [r1, lo, 'C', 'B'], ['C', lo, 'C', '?B'], ['B', r1, lo, 'B', 'I']])
                 if rng.random() < .3:
                     maxb = rng.randint(0, len(data) + 2)       # so that the first access can be a 413
                 bl.bump(st, 'wsgi:replace-input')
